@@ -195,6 +195,13 @@ def serve (E : BlockCipher) (q : Req) (c : Conf) : Ans :=
     | .error .mic => base 200 "MICFailed"
     | .error .other => base 200 "Other"
 
+/-- … with a device-key store that may fail with an error other than "not found" (`GetDeviceKeysByDevEUIFunc`): answered 400 "Other",
+mirrored, without frame or keys -/
+def serveStore (storeFails : Bool) (E : BlockCipher) (q : Req) (c : Conf) : Ans :=
+  if storeFails then
+    { code := 400, result := "Other", sender := q.receiver, receiver := q.sender, txid := q.txid, msgType := if q.rejoin then "RejoinAns" else "JoinAns" }
+  else serve E q c
+
 /-- `handleHomeNSReq`: (code, result, sender, receiver, txid, message type, HNetID); the callback returned `netID` or ErrDevEUINotFound -/
 def serveHomeNS (netID : Option Bytes) (sender receiver : String) (txid : Nat) : Nat × String × String × String × Nat × String × Bytes :=
   match netID with
